@@ -115,7 +115,9 @@ def correspond(tier):
     from . import pipelinex
     cx = pipelinex.suite_replay(tier, "C01.x")
     cp = pipelinex.suite_real_runs(tier, "C01.p", "posterior")
-    return [c, cx, cp] + _dependency_suites(tier)
+    from . import psoracles
+    ct = psoracles.suite_same_temperature(tier, "C01")
+    return [c, cx, cp, ct] + _dependency_suites(tier)
 
 
 def _dependency_suites(tier):
